@@ -467,6 +467,52 @@ func (m *myRewrite) run(c myRewriteCase) {
 		if _, ok := step(w+"/close", [][]byte{sess.MyStmtID(sess.MyComStmtClose, id)}, nil); !ok {
 			return
 		}
+		// the same values as a multi-row insert: parameter counts 2x and 4x the column count (for
+		// table t: 8 and 16, the counts at which the NULL bitmap fills its last byte exactly)
+		for _, rows := range []int{2, 4} {
+			n := rows * len(tbl.Cols)
+			one := "(" + marks + ")"
+			msql := "insert into " + c.Table + " (" + strings.Join(names, ", ") + ") values " + strings.TrimSuffix(strings.Repeat(one+", ", rows), ", ")
+			mid := uint32(20 + rows)
+			mw := fmt.Sprintf("%s-rows%d", w, rows)
+			if _, ok := step(mw+"/prepare", [][]byte{sess.MyPrepare(msql)}, prepareOK(c.DeprecateEOF, mid, paramDefs(n), nil)); !ok {
+				return
+			}
+			var mparams []sess.MyParam
+			for k := 0; k < rows; k++ {
+				mparams = append(mparams, params...)
+			}
+			msent := &sess.MyExecute{StmtID: mid, Iterations: 1, NewParamsBound: true, Params: mparams}
+			mres, ok := step(mw+"/execute", [][]byte{mustExec(msent)}, okAnswer)
+			if !ok {
+				return
+			}
+			if len(mres.DB) != 1 {
+				viol(mw+"/execute/packet-count", "one COM_STMT_EXECUTE packet was sent, %d packets reached the database", len(mres.DB))
+				return
+			}
+			mgot, err := sess.DecodeMyExecute(mres.DB[0].Payload, n, nil)
+			if err != nil {
+				viol(mw+"/execute/malformed", "the %d-parameter COM_STMT_EXECUTE that reached the database does not decode (%d bytes, sent %d): %v", n, len(mres.DB[0].Payload), len(mres.ClientSentRaw)-4, err)
+				return
+			}
+			for i := 0; i < n; i++ {
+				col := tbl.Cols[i%len(tbl.Cols)]
+				g, sp := mgot.Params[i], mparams[i]
+				if (g.Value == nil) != (sp.Value == nil) {
+					viol(mw+"/execute/null-marker-changed", "parameter %d of %d (%s): NULL marker not preserved", i, n, col.Name)
+					break
+				}
+				if !col.Protected && (g.Type != sp.Type || g.Unsigned != sp.Unsigned || !bytes.Equal(g.Value, sp.Value)) {
+					viol(mw+"/execute/untransformed-parameter-changed", "parameter %d of %d (%s) is not protected but changed: type 0x%02x->0x%02x unsigned %v->%v value %s -> %s", i, n, col.Name, sp.Type, g.Type, sp.Unsigned, g.Unsigned, short(sp.Value), short(g.Value))
+					break
+				}
+			}
+			r.Eval(1)
+			if _, ok := step(mw+"/close", [][]byte{sess.MyStmtID(sess.MyComStmtClose, mid)}, nil); !ok {
+				return
+			}
+		}
 	default:
 		ev.Fatalf("unknown how %q", c.How)
 	}
